@@ -40,6 +40,7 @@ STR = {100: 'a', 101: 'b', 105: 'ab'}
 RSTR = {v: k for k, v in STR.items()}
 TOP_DICT_SHAPES = {6, 7, 10, 14, 16}      # an argument is itself a dict: not given to shallow_round (see DESIGN)
 RECV = []
+ALGS = ['inf', 'lru', 'lfu', 'mru', 'rr', 'no']
 import collections
 NT = collections.namedtuple('NT', ['p', 'q'])
 
@@ -205,7 +206,12 @@ def run_cached(klepto, group, cfg):
         if cfg['mode'] == 'keygen':
             return klepto.keygen(keymap=km, tol=tol, deep=cfg['deep'])(stub)
         mod = klepto.safe if cfg['mode'] == 'safe' else klepto
-        return mod.inf_cache(keymap=km, tol=tol, deep=cfg['deep'])(stub)
+        alg = cfg.get('alg', 'inf')
+        if alg == 'inf':
+            return mod.inf_cache(keymap=km, tol=tol, deep=cfg['deep'])(stub)
+        if alg == 'no':      # no_cache keeps nothing in memory: give it an archive so that a repeated key is a load
+            return mod.no_cache(cache=klepto.archives.dict_archive('round', cached=True), keymap=km, tol=tol, deep=cfg['deep'])(stub)
+        return getattr(mod, alg + '_cache')(maxsize=100000, keymap=km, tol=tol, deep=cfg['deep'])(stub)
     f = mk(cfg['tol'])
     base = mk(None)
     cached = cfg['mode'] != 'keygen'
@@ -296,7 +302,7 @@ def signature(t, v):
     ks = set()
     for n in e['call']:
         kinds(n, ks)
-    return {'engine': 'round', 'clauses': v[1], 'tol': m['tol'], 'deep': m.get('deep'), 'which': m.get('which'),
+    return {'engine': 'round', 'clauses': v[1], 'alg': m.get('alg'), 'tol': m['tol'], 'deep': m.get('deep'), 'which': m.get('which'),
             'mode': m.get('mode'), 'enc': m.get('enc'), 'form': m['form'], 'shape': m['sh'], 'exc': e['exc'],
             'dict_int_keys': 'item-intkey' in ks, 'has_str': 'str' in ks, 'has_set': bool(ks & {'set', 'fset'})}
 
@@ -352,7 +358,17 @@ def main(pid, tier):
                             if (n + g['sh'] + (tol or 0)) % 2 and not (enc == 'str' and mode == 'std'):
                                 continue
                         for form in forms:
-                            jobs.append((g, dict(tol=tol, deep=deep, enc=enc, mode=mode, form=form)))
+                            if mode == 'keygen':
+                                algs = [None]
+                            elif thorough:
+                                algs = ALGS
+                            else:
+                                algs = [ALGS[(n + g['sh'] + len(jobs)) % len(ALGS)]]
+                            for alg in algs:
+                                c = dict(tol=tol, deep=deep, enc=enc, mode=mode, form=form)
+                                if alg:
+                                    c['alg'] = alg
+                                jobs.append((g, c))
             for which in ('simple', 'shallow', 'deep'):
                 if which == 'shallow' and g['sh'] in TOP_DICT_SHAPES:
                     continue
